@@ -2,6 +2,7 @@ package main
 
 import (
 	"fmt"
+	"go/ast"
 	"go/types"
 	"sort"
 	"strings"
@@ -40,6 +41,17 @@ func runC10(c *Ctx) {
 // c10Wrappers: part == "" checks every wrapper; "Reweight" / "ChangeMapping" only that one (C16 / C17 re-evaluate it
 // under their own rule ids).
 func c10Wrappers(c *Ctx, a *sketchAnchors, rule string, part string) {
+	if part == "AddWithCount" {
+		n := checkWrapper(c, a, wrapperSpec{rule: rule, method: "AddWithCount", inner: "AddWithCount",
+			innerArgs: []func(*Term) bool{isParamN(1), isParamN(2)}, stat: "Add", statArgs: []func(*Term) bool{isParamN(1), isParamN(2)},
+			domain: mkDomain(paramScalar("count", 2, 1, constPoints("0"))),
+			skipOK: func(p *Path) bool {
+				set, ok := p.Classes["count"]
+				return ok && set&^(1<<uint(classOfPoint(0))) == 0
+			}, skipWhy: "weight is exactly 0"})
+		c.R.floor(rule, "exact-variant AddWithCount wrapper paths", n, 2)
+		return
+	}
 	if part == "Clear" {
 		n := checkWrapper(c, a, wrapperSpec{rule: rule, method: "Clear", inner: "Clear", stat: "Clear"})
 		c.R.floor(rule, "exact-variant Clear wrapper paths", n, 1)
@@ -459,6 +471,59 @@ func c10StatObject(c *Ctx, a *sketchAnchors, rule string, part string) {
 		c.R.check(okC, rule, "Add/count", shortFn(f), c.fpos(f), "count += weight on every path", fmt.Sprintf("%d path(s)", len(ps)))
 		c.R.check(okS, rule, "Add/sum", shortFn(f), c.fpos(f), "sum += value*weight (compensated) on every path", fmt.Sprintf("%d path(s)", len(ps)))
 		c10MinMaxFold(c, rule, f, ps, "Add", minF, maxF, func(string) func(*Term) bool { return func(t *Term) bool { return t.isParam(1) } })
+	}
+	// the compensated step itself (by role: the unexported one-float method AddToSum delegates to): on its single
+	// path  tmp = v − comp;  t = sum + tmp;  comp = (t − sum) − tmp;  sum = t  — unconditionally, nothing else
+	if want("Add") || want("MergeWith") || want("AddToSum") {
+		var kahan *ssa.Function
+		if ats := c.P.DeclaredMethod(st, "AddToSum"); ats != nil {
+			for _, b := range ats.Blocks {
+				for _, in := range b.Instrs {
+					if call, ok := in.(*ssa.Call); ok {
+						if cal, ok := call.Common().Value.(*ssa.Function); ok && recvNamed(cal) == st && len(cal.Params) == 2 && !ast.IsExported(cal.Name()) {
+							kahan = cal
+						}
+					}
+				}
+			}
+		}
+		if kahan == nil {
+			c.R.undecided(rule, "compensated-step/anchor", "", "", "AddToSum delegates to an unexported one-float method of the statistics (the compensated step)", "not found")
+		} else {
+			roleAnchors[kahan] = true
+			ps, _ := execPlain(c, kahan, nil, 1)
+			ok := len(ps) == 1
+			found := fmt.Sprintf("%d path(s)", len(ps))
+			if ok {
+				p := ps[0]
+				ws := p.Writes()
+				var sumF, compF string
+				var vSum, vComp *Term
+				// the two fields: sum' = t (a +), comp' = (t − sum) − tmp (a −)
+				for _, e := range ws {
+					if e.Kind == "store" && e.Addr.Op == "field" && e.Addr.Args[0].isParam(0) {
+						if e.Val.isBin("+") {
+							sumF, vSum = e.Addr.Sym, e.Val
+						} else if e.Val.isBin("-") {
+							compF, vComp = e.Addr.Sym, e.Val
+						}
+					}
+				}
+				ok = len(ws) == 2 && vSum != nil && vComp != nil
+				if ok {
+					isF := func(t *Term, f string) bool { return isRecvField(t.unver(), f) }
+					isTmp := func(t *Term) bool { return t.isBin("-") && t.Args[0].isParam(1) && isF(t.Args[1], compF) }
+					isT := func(t *Term) bool {
+						return t.isBin("+") && (isTmp(t.Args[0]) && isF(t.Args[1], sumF) || isTmp(t.Args[1]) && isF(t.Args[0], sumF))
+					}
+					okSum := isT(vSum)
+					okComp := vComp.isBin("-") && isTmp(vComp.Args[1]) && vComp.Args[0].isBin("-") && isT(vComp.Args[0].Args[0]) && isF(vComp.Args[0].Args[1], sumF)
+					ok = okSum && okComp && len(p.Conds) == 0
+					found = fmt.Sprintf("sum'=%s comp'=%s conds=%d", vSum.Key(), vComp.Key(), len(p.Conds))
+				}
+			}
+			c.R.check(ok, rule, "compensated-step/shape", shortFn(kahan), c.fpos(kahan), "tmp = v − comp; t = sum + tmp; comp = (t − sum) − tmp; sum = t — on the single unconditional path", found)
+		}
 	}
 	// AddToCount / AddToSum / compensated helper
 	if f := c.P.DeclaredMethod(st, "AddToCount"); want("AddToCount") && c.mustFunc(rule, f, "AddToCount") {
